@@ -84,9 +84,9 @@ class PlanRng:
 def sig(x, digits: int = 6):
     """Round to `digits` significant digits so the JSON literal is exact."""
     a = np.asarray(x, dtype=float)
-    out = np.empty_like(a)
+    out = np.empty(a.shape, dtype=float)      # C-contiguous whatever the layout of `a`
     flat_in = a.ravel()
-    flat_out = out.ravel()
+    flat_out = out.reshape(-1)                # a view (ravel of a non-contiguous array copies)
     for i, v in enumerate(flat_in):
         if v == 0 or not math.isfinite(v):
             flat_out[i] = v
